@@ -11,18 +11,84 @@
 use crate::corpus;
 use crate::fw::{CaseResult, Cx, Ev, Tier};
 use crate::gen::misc as gm;
+use crate::gen::summary::Op as SumOp;
+use crate::mon::c07;
+use crate::oracle::summary::{self as osum, Val};
 use crate::oracle::dewey::{self as od, Op};
 use crate::oracle::misc::{self as om, Revision};
 use crate::rng::hash_bytes;
 use pkgsrc::summary::Summary;
 use pkgsrc::{Pattern, PkgName};
 
-fn check_name(ev: &mut Ev, name: &str) -> CaseResult {
+/// The Summary accessors must give PkgName's split of the current PKGNAME
+/// whatever else the entry holds and however it was built: observed after
+/// every setter call once a PKGNAME is set, and on an entry parsed from a
+/// complete text.
+fn check_summary_ctx(ev: &mut Ev, name: &str, ctx: &gm::SumCtx) -> CaseResult {
+    ev.count("summary/ctx/setters");
+    if ctx.coherent_ops {
+        ev.count("summary/ctx/setters_coherent_pkgpath");
+    }
+    let mut s = Summary::new();
+    let mut current: Option<&str> = None;
+    for (k, op) in ctx.ops.iter().enumerate() {
+        c07::apply(&mut s, op);
+        if let SumOp::Set(osum::PKGNAME, Val::S(n)) = op {
+            current = Some(n.as_str());
+        }
+        let Some(cur) = current else { continue };
+        let (base, version) = om::split_last_dash(cur);
+        ev.evals(2);
+        if s.pkgbase() != Some(base) || s.pkgversion() != Some(version) {
+            let hist: Vec<String> = ctx.ops[..=k].iter().map(|o| o.show()).collect();
+            return Err(format!(
+                "Summary gives pkgbase {:?} / pkgversion {:?} for PKGNAME {cur:?} (last '-' gives ({base:?}, {version:?})) after the calls [{}]",
+                s.pkgbase(),
+                s.pkgversion(),
+                hist.join("; ")
+            )
+            .into());
+        }
+    }
+    let Some(text) = &ctx.text else {
+        ev.count("summary/ctx/no_text_for_name");
+        return Ok(());
+    };
+    match text.parse::<Summary>() {
+        Err(_) => ev.count("summary/ctx/from_str_rejected_not_compared"),
+        Ok(s) if s.pkgname() != Some(name) => ev.count("summary/ctx/from_str_other_pkgname_not_compared"),
+        Ok(s) => {
+            ev.count("summary/ctx/from_str_compared");
+            if ctx.coherent_text {
+                ev.count("summary/ctx/from_str_coherent_pkgpath");
+            }
+            let (base, version) = om::split_last_dash(name);
+            ev.evals(2);
+            if s.pkgbase() != Some(base) || s.pkgversion() != Some(version) {
+                return Err(format!(
+                    "Summary parsed from {text:?} gives pkgbase {:?} / pkgversion {:?}, the last '-' of its PKGNAME gives ({base:?}, {version:?})",
+                    s.pkgbase(),
+                    s.pkgversion()
+                )
+                .into());
+            }
+        }
+    }
+    Ok(())
+}
+
+fn check_name(ev: &mut Ev, name: &str, ctx: &gm::SumCtx) -> CaseResult {
     let (base, version) = om::split_last_dash(name);
     let dashes = om::count_dashes(name);
     let nbs = om::count_nb(name);
     ev.count(&format!("dashes/{}", dashes.min(4)));
     ev.count(&format!("nb/{}", if nbs >= 2 { "2+".to_string() } else { nbs.to_string() }));
+    if gm::NAME_SUFFIXES.iter().any(|x| name.ends_with(x)) {
+        ev.count("decorated/suffix");
+    }
+    if gm::NAME_PREFIXES.iter().any(|x| name.starts_with(x)) {
+        ev.count("decorated/prefix");
+    }
 
     let p = PkgName::new(name);
     ev.evals(3);
@@ -86,6 +152,7 @@ fn check_name(ev: &mut Ev, name: &str) -> CaseResult {
             )
             .into());
         }
+        check_summary_ctx(ev, name, ctx)?;
     } else {
         ev.count("summary/empty_part_not_compared");
     }
@@ -171,6 +238,9 @@ pub fn run(cx: &mut Cx) {
     for k in [
         "dashes/0", "dashes/1", "dashes/2", "dashes/3", "dashes/4", "nb/0", "nb/1", "nb/2+",
         "revision/ends_nb", "revision/no_nb", "probe/matcher", "summary/compared",
+        "summary/ctx/setters", "summary/ctx/setters_coherent_pkgpath",
+        "summary/ctx/from_str_compared", "summary/ctx/from_str_coherent_pkgpath",
+        "decorated/suffix", "decorated/prefix",
     ] {
         cx.ev.require(k);
     }
@@ -180,9 +250,10 @@ pub fn run(cx: &mut Cx) {
     let mut r = cx.stream("names");
     for _ in 0..n {
         let name = gm::name(&mut r);
+        let ctx = gm::sum_ctx(&mut r, &name);
         cx.check(|| format!("name {name:?}"), |ev| {
             ev.count("workload/generated");
-            check_name(ev, &name)
+            check_name(ev, &name, &ctx)
         });
     }
 
@@ -204,17 +275,32 @@ pub fn run(cx: &mut Cx) {
     }
 
     // (c) corpus names
+    // each real name as it is and with a dictionary ending / beginning
+    // (binary package suffix, directory prefix, ...) attached
     if cx.tier != Tier::Mini {
         let names = corpus::names();
         let step = cx.pick_tier(64u64, 8, 1, 1);
+        let mut r = cx.stream("corpus-contexts");
         for (i, name) in names.iter().enumerate() {
             let i = i as u64;
             if i % step != 0 || !cx.mine(i / step) {
                 continue;
             }
+            let ctx = gm::sum_ctx(&mut r, name);
             cx.check(|| format!("corpus name {name:?}"), |ev| {
                 ev.count("workload/corpus");
-                check_name(ev, name)
+                check_name(ev, name, &ctx)
+            });
+            let k = (i / step) as usize;
+            let decorated = if k % 3 == 2 {
+                format!("{}{name}", gm::NAME_PREFIXES[(k / 3) % gm::NAME_PREFIXES.len()])
+            } else {
+                format!("{name}{}", gm::NAME_SUFFIXES[(k / 3) % gm::NAME_SUFFIXES.len()])
+            };
+            let ctx = gm::sum_ctx(&mut r, &decorated);
+            cx.check(|| format!("decorated corpus name {decorated:?}"), |ev| {
+                ev.count("workload/corpus_decorated");
+                check_name(ev, &decorated, &ctx)
             });
         }
     }
